@@ -397,3 +397,92 @@ impl Family for ContextWalks {
         json!({"property": self.prop, "first_command": if self.start_bin { "binary" } else { "text" }, "events": self.plan(idx).1})
     }
 }
+
+/// Cells of every type straddling the packet limit: one row = a filler blob followed by the probe
+/// row's nine typed cells; the filler is sized so that the 2^24-1 byte limit of the first packet
+/// falls at *every* byte position of the typed cells (and a few before / behind them). A cell
+/// encoder that does not push all of its bytes through the packet writer (a single `write` whose
+/// short count is dropped) loses the part behind the limit. Text or binary protocol.
+pub struct BoundaryCells {
+    pub prop: &'static str,
+    pub bin: bool,
+}
+impl BoundaryCells {
+    /// how many byte positions are swept (the typed cells take less than this in either protocol)
+    const SPAN: u64 = 150;
+}
+impl Family for BoundaryCells {
+    fn name(&self) -> String {
+        format!("typed-cells-straddling-the-packet-limit-{}", if self.bin { "binary" } else { "text" })
+    }
+    fn len(&self) -> u64 {
+        Self::SPAN
+    }
+    fn max_threads(&self) -> Option<usize> {
+        Some(8)
+    }
+    fn run(&self, idx: u64, st: &mut Stats) -> Result<(), Violation> {
+        st.nontrivial += 1;
+        st.bump("boundary_cells");
+        let mut cols = vec![col("filler", ColumnType::MYSQL_TYPE_BLOB, ColumnFlags::empty())];
+        cols.extend(layout_a().iter().cloned());
+        let cols = Arc::new(cols);
+        // the filler's data ends (MAXP - 10 + idx) bytes into the row message, give or take its own
+        // prefix: the sweep is wide enough to cover every position of the cells behind it
+        let filler_len = MAXP - 160 + idx as usize;
+        let mut row = vec![Val::Bytes((0..filler_len).map(|i| (i % 249) as u8).collect())];
+        row.extend(probe_row());
+        let prog = Arc::new(vec![WOp::Start(cols.clone()), WOp::WriteRow(row.clone()), WOp::WriteRow(std::iter::once(Val::Bytes(vec![1, 2, 3])).chain(small_row()).collect()), WOp::Finish]);
+        let cmds = vec![ClientCmd::new(with_byte(COM_STMT_PREPARE, b"id=1 p=0")), if self.bin { ClientCmd::new(cmd_execute(1, 0, 1, &[])) } else { q(b"x") }, ping()];
+        let conv = Conv::new(cmds);
+        let s = conv.stream();
+        let stream = Arc::new(s.bytes);
+        let mut sim = sim_for(&stream, vec![]);
+        sim.log_ops = false;
+        let p2 = prog.clone();
+        let behave = Box::new(move |_: usize, cb: &Cb| match cb {
+            Cb::Prepare(_) => Behavior::PrepReply { id: 1, params: param_cols(0), cols: param_cols(0) },
+            Cb::Query(_) | Cb::Execute { .. } => Behavior::Prog(p2.clone()),
+            _ => Behavior::Silent,
+        });
+        let o = run_conn(sim, ConnCfg::new(behave));
+        st.transitions += 1;
+        let what = format!("{} row: a filler of {} bytes, then nine typed cells across the packet limit", if self.bin { "binary" } else { "text" }, filler_len);
+        if let ConnResult::Panic(l, m) = &o.res {
+            return Err(Violation::new(panic_key(l, m), format!("{}: run_on panicked at {}: {}", what, l, m)));
+        }
+        if let Some(bad) = o.calls.iter().find(|c| c.res.is_err()) {
+            return Err(Violation::new("valid-write-refused", format!("{}: writer call {} returned {:?}", what, bad.op, bad.res)));
+        }
+        if !o.res.is_ok() {
+            return Err(Violation::new("result-not-ok", format!("{}: run_on returned {}", what, o.res.short())));
+        }
+        let d = decode_all(delivered(&o), &conv, &s.last_seq, conv.cmds.len(), false).map_err(|e| Violation::new("reply-decode", format!("{}: {}", what, e)))?;
+        let rows = match &d.replies[1][..] {
+            [Unit::ResultSet { rows, end: Ok(_), .. }] if rows.len() == 2 => rows,
+            other => return Err(Violation::new("rows-missing", format!("{}: the reply has {} unit(s)", what, other.len()))),
+        };
+        for (k, (v, cell)) in row.iter().zip(rows[0].iter()).enumerate() {
+            let ok = if self.bin {
+                let (ty, uns) = type_code(&cols[k]);
+                match super::c07::expected_cell(v, ty, uns) {
+                    None => *cell == Cell::Null,
+                    Some(b) => super::c07::same_cell(cell, &Cell::Bin(b)),
+                }
+            } else {
+                match text_of(v) {
+                    None => *cell == Cell::Null,
+                    Some(t) => super::c06::text_cell_equivalent(v, cell, &Cell::Text(t)),
+                }
+            };
+            if !ok {
+                let shown = format!("{:?}", cell);
+                return Err(Violation::new("cell-differs-at-the-packet-limit", format!("{}: column {}: wrote {}, the client decodes {}", what, k, val_short(v).chars().take(40).collect::<String>(), shown.chars().take(60).collect::<String>())));
+            }
+        }
+        Ok(())
+    }
+    fn describe(&self, idx: u64) -> J {
+        json!({"property": self.prop, "protocol": if self.bin { "binary" } else { "text" }, "filler_bytes": MAXP - 160 + idx as usize})
+    }
+}
